@@ -243,7 +243,11 @@ def h_jacobian(ctx, kinds):
         prodlin = 1
         for i, coef in lin.items():
             E = ctx.uf_exp(y[i])
-            prodlin = prodlin * (E if coef == 1 else (1 / E if coef == -1 else None))
+            if coef != int(coef):
+                ctx.claim('jacobian_is_derivative_of_back_transform', False)      # not of the stated form at all
+                return
+            c = int(coef)
+            prodlin = prodlin * (E ** c if c >= 0 else 1 / (E ** (-c)))
         ctx.claim_poly('jacobian_is_derivative_of_back_transform', prodlin * ctx.exp_of(rest), ref)
     else:
         ctx.claim('jacobian_is_derivative_of_back_transform', close(math.exp(lj), ref, 1e-6))
